@@ -13,6 +13,7 @@
   pcfg_weights(g)                rule weights normalised per head (keeps prefix weights in float range on
                                  long contexts)
   enum_shapes(lo, hi)            slice of the exhaustive enumeration G(2,2,3,2)
+  replay_with_hashseed(doc, m)   replay a stored case under the PYTHONHASHSEED it was found with
 """
 import itertools
 import random
@@ -235,19 +236,23 @@ def long_string(g, target, rng, cap=4000):
                 changed = True
     cyclic = {X for X in reach_nt if X in reach_nt[X]}
     grow_nt = {X for X in reach_nt if X in cyclic or reach_nt[X] & cyclic}
+    if g.S not in grow_nt:
+        return None             # finite language (longest member not searched for)
     best_out = None
     for _attempt in range(8):
         form = [g.S]
-        for _ in range(cap):
+        size = mn[g.S]
+        for _ in range(min(cap, 8 * target + 100)):
             nt_pos = [i for i, y in enumerate(form) if y not in g.V]
-            size = sum(1 if y in g.V else mn[y] for y in form)
-            if size >= target or not nt_pos:
+            if size >= target or not nt_pos or len(form) > 3 * target + 20:
                 break
             alive = [i for i in nt_pos if form[i] in grow_nt]
             i = rng.choice(alive or nt_pos)
             cands = by[form[i]]
             rec = [b for b in cands if any(y in grow_nt for y in b)]                 # keeps the derivation alive
-            form[i:i + 1] = list(rng.choice(rec or cands))
+            b = rng.choice(rec or cands)
+            size += sum(1 if y in g.V else mn[y] for y in b) - mn[form[i]]
+            form[i:i + 1] = list(b)
         # minimal completion
         out = []
         stack = list(reversed(form))
@@ -262,6 +267,26 @@ def long_string(g, target, rng, cap=4000):
         if best_out is not None and len(best_out) >= target:
             break
     return tuple(best_out) if best_out is not None and len(best_out) >= target else None
+
+
+def replay_with_hashseed(doc, module):
+    """Re-run a stored failing case in a child interpreter under the PYTHONHASHSEED it was found with (set iteration
+    order decides e.g. the agenda's pop order).  Returns the child's exit code, or None when this interpreter already
+    runs under that seed (the caller then replays in-process)."""
+    import json
+    import os
+    import subprocess
+    import sys
+    hs = str(doc.get("replay", {}).get("hashseed", ""))
+    if not hs.isdigit() or os.environ.get("PYTHONHASHSEED") == hs:
+        return None
+    code = ("import json, sys, importlib\n"
+            "from props import common\n"
+            "m = importlib.import_module(sys.argv[1])\n"
+            "sys.exit(common.generic_replay(json.load(sys.stdin), m.check_case))\n")
+    r = subprocess.run([sys.executable, "-c", code, module], input=json.dumps(doc), text=True,
+                       env=dict(os.environ, PYTHONHASHSEED=hs))
+    return r.returncode
 
 
 def selfcheck():
